@@ -437,6 +437,9 @@ class SetOperation(Step):
         left.name = left.name or "left"
         right = Step.from_expression(expression.right, ctes)
         right.name = right.name or "right"
+        if right.name == left.name:
+            # Both operands read the same table: their results must not share one name in the context
+            right.name = f"{right.name}_right"
         step = cls(
             op=expression.__class__,
             left=left.name,
